@@ -6,7 +6,10 @@ import (
 	"testing"
 )
 
-// TestPlanPartition: the shards' plans partition the cases of the unsharded plan.
+// TestPlanPartition is a self-test of the harness (not run by ./check; run it by hand with
+// VERIF_TIER=quick|thorough): the plans of the shards, each built from its own call of
+// cat.Seeds() as in separate worker processes, partition the cases of the unsharded plan -
+// no case is run twice, none is lost.
 func TestPlanPartition(t *testing.T) {
 	tier := os.Getenv("VERIF_TIER")
 	key := func(c *testCase) string {
